@@ -321,3 +321,32 @@ local-rule-b:
     Ok(())
   }
 }
+
+#[cfg(feature = "verif-hooks")]
+pub mod verif_hooks {
+  //! verification hook: `TopologicalSort::get_order` on a plain dependency map
+  use super::*;
+
+  pub struct Deps(pub Vec<String>);
+
+  impl DependentRule for Deps {
+    fn visit_dependency<'a>(&'a self, sorter: &mut TopologicalSort<'a, Self>) -> OrderResult<()> {
+      for d in &self.0 {
+        sorter.visit(d)?;
+      }
+      Ok(())
+    }
+  }
+
+  /// builds the `HashMap`, returns its key iteration order (the order `get_order` visits the
+  /// keys in, the map is not modified in between) and the result of `get_order`
+  pub fn get_order_dump(
+    pairs: Vec<(String, Vec<String>)>,
+  ) -> (Vec<String>, Result<Vec<String>, String>) {
+    let maps: HashMap<String, Deps> = pairs.into_iter().map(|(k, d)| (k, Deps(d))).collect();
+    let keys: Vec<String> = maps.keys().cloned().collect();
+    let order =
+      TopologicalSort::get_order(&maps).map(|v| v.into_iter().map(String::from).collect());
+    (keys, order)
+  }
+}
